@@ -29,6 +29,10 @@ func c16(c *Ctx) {
 	c.Res.Rule = "all 1441^2 HH:mm pairs; adjacent-day pairs, month/year boundaries and random pairs/triples of dates 0001..9999; date-times vs instants straddling second boundaries (>= 1970); SetTimeProfile segment acceptance over HH:mm pairs through the in-memory driver; oracle = lexicographic comparison of civil tuples; checks trichotomy, mirror image, transitivity; distinct = distinct pairs/triples"
 	r := c.Rng("main")
 	var caseNo int64
+	if c.Mode == "tz" {
+		c16Zone(c)
+		return
+	}
 
 	// ---- HH:mm: all pairs (partitioned by first value)
 	hh := []types.HHmm{}
@@ -264,4 +268,95 @@ func c16(c *Ctx) {
 	c.Res.Sample(map[string]any{"hhmm": "08:30 vs 08:31", "expected": "before"})
 	c.Res.Sample(map[string]any{"date": "2024-02-29 vs 2024-03-01", "expected": "before"})
 	_ = gen.Locations
+}
+
+// c16Zone: the date order in a process time zone with daylight saving: every pair of adjacent days (and of days a week and a
+// year apart) of the years 1990..2040 and of sampled years, in both directions, plus the days around every transition of the
+// zone - a 23 or 25 hour day, or a day without midnight, must not change the verdict. Days with no instant in the zone are skipped.
+func c16Zone(c *Ctx) {
+	zone := time.Local.String()
+	c.Res.Note("zone", zone)
+	r := c.Rng("tz/" + zone)
+	z := newZoneOracle(time.Local)
+	var caseNo int64
+	type ymd struct{ y, m, d int }
+	cmp := func(a, b ymd) int { return cmpInts([]int{a.y, a.m, a.d}, []int{b.y, b.m, b.d}) }
+	pair := func(a, b ymd) {
+		if a.y < 1 || b.y < 1 || a.y > 9999 || b.y > 9999 || (a.y == 1 && a.m == 1 && a.d == 1) || (b.y == 1 && b.m == 1 && b.d == 1) {
+			return
+		}
+		if !z.dayHasInstant(a.y, a.m, a.d) || !z.dayHasInstant(b.y, b.m, b.d) {
+			c.Res.Count("exempt:day-without-instant", 1)
+			return
+		}
+		caseNo++
+		c.Res.Eval(1)
+		da, db := types.ToDate(a.y, time.Month(a.m), a.d), types.ToDate(b.y, time.Month(b.m), b.d)
+		if caseNo%2 == 0 {
+			pa, e1 := types.ParseDate(fmt.Sprintf("%04d-%02d-%02d", a.y, a.m, a.d))
+			pb, e2 := types.ParseDate(fmt.Sprintf("%04d-%02d-%02d", b.y, b.m, b.d))
+			if e1 == nil && e2 == nil {
+				da, db = pa, pb
+			}
+		}
+		before, after, equal := da.Before(db), da.After(db), da.Equals(db)
+		want := cmp(a, b)
+		c.Res.DistinctKey("zd", zone, a.y, a.m, a.d, b.y, b.m, b.d)
+		n := 0
+		for _, x := range []bool{before, after, equal} {
+			if x {
+				n++
+			}
+		}
+		as, bs := fmt.Sprintf("%04d-%02d-%02d", a.y, a.m, a.d), fmt.Sprintf("%04d-%02d-%02d", b.y, b.m, b.d)
+		w := map[string]any{"a": as, "b": bs, "before": before, "after": after, "equal": equal, "expected": want, "zone": zone}
+		if n != 1 {
+			c.Res.Violate("C16:date:trichotomy", fmt.Sprintf("date %s vs %s: before=%v equal=%v after=%v (exactly one must hold) (TZ=%s)", as, bs, before, equal, after, zone), w, caseNo)
+		} else if (want < 0) != before || (want > 0) != after || (want == 0) != equal {
+			c.Res.Violate("C16:date:calendar-order", fmt.Sprintf("date %s vs %s: before=%v equal=%v after=%v disagrees with the calendar order (%d) (TZ=%s)", as, bs, before, equal, after, want, zone), w, caseNo)
+		}
+		if da.Before(db) != db.After(da) {
+			c.Res.Violate("C16:date:mirror", fmt.Sprintf("date %s.Before(%s) != %s.After(%s) (TZ=%s)", as, bs, bs, as, zone), w, caseNo)
+		}
+	}
+	day := func(u int64) ymd { cv := civilOf(u, time.UTC); return ymd{cv.y, cv.m, cv.d} }
+	sweep := func(y int) {
+		for u := civilUnix(y, 1, 1, 12, 0, 0); day(u).y == y; u += 86400 {
+			a := day(u)
+			for _, k := range []int64{1, 2, 7, 365, 366} {
+				b := day(u + k*86400)
+				pair(a, b)
+				pair(b, a)
+			}
+			pair(a, a)
+		}
+	}
+	years := []int{}
+	for y := 1990; y <= 2040; y++ {
+		years = append(years, y)
+	}
+	for k := 0; k < c.N(6, 60); k++ {
+		years = append(years, 2+r.Pick(9996))
+	}
+	for _, y := range years {
+		sweep(y)
+	}
+	// around every transition of the zone
+	nTrans := 0
+	for i := 1; i < len(z.periods); i++ {
+		T := z.periods[i].start
+		if T == farPast || (!c.Thorough() && i%3 != int(c.Seed%3) && (T < civilUnix(1990, 1, 1, 0, 0, 0) || T > civilUnix(2040, 1, 1, 0, 0, 0))) {
+			continue
+		}
+		nTrans++
+		cv := civilOf(T, time.Local)
+		u := civilUnix(cv.y, cv.m, cv.d, 12, 0, 0)
+		for da := int64(-2); da <= 2; da++ {
+			for db := int64(-2); db <= 2; db++ {
+				pair(day(u+da*86400), day(u+db*86400))
+			}
+		}
+	}
+	c.Res.Count("zone-transitions-examined", int64(nTrans))
+	c.Res.Count("zone-years-swept", int64(len(years)))
 }
